@@ -5,6 +5,7 @@ package transform
 // C11 (reverse-complement part): ReverseComplement, Complement, Reverse, ComplementBase.
 //
 // verif:bound C11 rc clauses: all strings over the 15 IUPAC DNA codes in both cases, length 0..5 (quick) / 0..8 (thorough); concatenation clause every split point
+// verif:bound C11 long-string clause: lengths 511, 512, 513, 1025 (quick) and 255..65537 around powers of two (thorough): concrete IUPAC body, 7 symbolic letters at the ends and around the centre
 // verif:bound C11 code-semantics clause: every single code in both cases (complete)
 // verif:bound C11 outside the claim: strings longer than the stated lengths; non-IUPAC letters
 
@@ -114,6 +115,33 @@ func Harness_C11_CodeSemantics() {
 	vCover("C11 three-base code", vTable(mask, c) == 14)
 }
 
+// long strings (size thresholds): a concrete body with symbolic letters at both ends and around the centre
+func c11Long() (string, int) {
+	sizes := []int{511, 512, 513, 1025}
+	if vTier(0, 1) == 1 {
+		sizes = []int{255, 257, 511, 512, 513, 1023, 1025, 4097, 65537}
+	}
+	n := sizes[vChoice(len(sizes))]
+	body := make([]byte, n)
+	for i := range body {
+		body[i] = "ACGTRYKMBVDHSWN"[i%15]
+	}
+	c := n / 2
+	s := vBytes(2, c11Both) + string(body[2:c-1]) + vBytes(3, c11Both) + string(body[c+2:n-2]) + vBytes(2, c11Both)
+	return s, n
+}
+
+func Harness_C11_Long() {
+	s, n := c11Long()
+	tab := c11CompTable()
+	rc := ReverseComplement(s)
+	vAssert(len(rc) == n, "rc-length")
+	vAssert(vEqStr(rc, c11OracleRC(s, tab)), "rc-equals-oracle")
+	vAssert(vEqStr(rc, Reverse(Complement(s))), "rc-is-reverse-of-complement")
+	vAssert(vEqStr(ReverseComplement(rc), s), "rc-involution")
+	k := n / 3
+	vAssert(vEqStr(rc, ReverseComplement(s[k:])+ReverseComplement(s[:k])), "rc-reverses-concatenation")
+}
 func Selftest_C11_Vectors() {
 	for _, s := range []string{"", "ATGC", "atgc", "ACGTRYSWKMBDHVN", "acgtryswkmbdhvn", "GATTACA", "UuXx", "AAAATTTT"} {
 		vOut(ReverseComplement(s))
